@@ -27,6 +27,12 @@ before the call.  C19.5 trait limits: the limits consulted are exactly those
 whose trait is among the request's traits; the per-trait subtraction visits
 every trait of every other reservation (no early exit) and subtracts under
 `trait in free` only.
+Added by the seeding rounds - C19.1 both spellings of a unit letter use one
+base (shared with C01.7) and memory / disk / cpu are compared against their
+own limits; C19.3 the excluded id is '<allocation>/<cell>' from the same
+rsrc_id split (data flow, not names) and update re-checks capacity
+unconditionally; C19.5 the per-trait loop has no early exit and consults
+exactly the limits whose trait is requested.
 Does NOT decide the sums over arbitrary reservation sets (arithmetic).
 """
 
